@@ -505,6 +505,7 @@ class Arg:
         self.forced = list(forced) if forced is not None else None
         self.r = op['r']
         self.repeat = bool(op.get('repeat'))
+        self.twin_vary = op.get('twin_vary')
         self.resolved = []
         self.fault = op.get('fault') or {}
         self.fired = False
@@ -1083,6 +1084,21 @@ class Exec:
             if r.chance(0.3):
                 kw['radunit'] = r.pick(['deg', 'arcsec', 'arcmin', 'rad',
                                         '', None])
+        if a.twin_vary is not None:
+            # the twin of the previous call: the same options except one
+            tv = Stream(a.twin_vary, 'twin')
+            if fmt == 'ds9':
+                kw['precision'] = 2 if kw.get('precision') != 2 else 7
+            elif fmt == 'crtf':
+                which = tv.pick(['fmt', 'radunit', 'coordsys'])
+                if which == 'fmt':
+                    kw['fmt'] = '.2f' if kw.get('fmt') != '.2f' else '.5f'
+                elif which == 'radunit':
+                    kw['radunit'] = 'arcsec' \
+                        if kw.get('radunit') != 'arcsec' else 'arcmin'
+                else:
+                    kw['coordsys'] = 'galactic' \
+                        if kw.get('coordsys') != 'galactic' else 'fk5'
         if a.bad():
             a.fired = True
             kw.update(r.pick({
@@ -1199,7 +1215,8 @@ class Exec:
         kw = self._ser_kwargs(a, fmt, target)
         ext = a.rng.pick({'ds9': ['.reg', '.ds9'], 'crtf': ['.crtf'],
                           'fits': ['.fits', '.fit']}[fmt])
-        name = f'w{a.r % 1000003}{"b" if a.repeat else ""}{ext}'
+        name = (f'w{a.r % 1000003}{"b" if a.repeat else ""}'
+                f'{"t" if a.twin_vary is not None else ""}{ext}')
         explicit = a.rng.chance(0.5)
         over = a.rng.pick([None, True, False])
         shared = a.rng.chance(0.3)
@@ -1988,6 +2005,10 @@ def gen_plan(seed, index, tier='quick'):
             # the object's private state must not show in the second
             tw = {'op': k, 's': list(op['s']), 'r': ops_rng.getrandbits(48),
                   'store': False, 'twin': True}
+            if k in ('serialize', 'write_read'):
+                # the same call with exactly one option changed
+                tw['r'] = op['r']
+                tw['twin_vary'] = ops_rng.getrandbits(32)
             ops.append(tw)
         elif ops_rng.chance(0.2) and len(ops) < n and \
                 op.get('fault', {}).get('kind') != 'line_abort':
